@@ -152,9 +152,18 @@ class FnView:
         return []
 
     def all_err_nodes(self):
+        """Nodes that only error exits pass: err successors of `?`/match, and
+        statements that build `Err(..)` directly into the return place."""
         out = []
         for bb in self.calls:
             out += self.err_nodes(bb)
+        for bb, blk in enumerate(self.fn.blocks):
+            if blk["cleanup"]:
+                continue
+            for i, st in enumerate(blk["stmts"]):
+                if st["s"] == "assign" and st["place"]["local"] == 0 and not st["place"]["proj"] and st["rv"]["r"] == "aggregate" \
+                        and st["rv"].get("variant") == "Err" and "Result" in st["rv"].get("adt", ""):
+                    out.append(("s", bb, i))
         return out
 
     def call_nodes(self, pred):
